@@ -5,12 +5,14 @@ mod consts;
 mod fam_bank;
 mod fam_curve;
 mod fam_fx;
+mod fam_gate;
 mod fam_integr;
 mod fam_panic;
 mod fam_tokenfee;
 mod mon;
 mod mon_c02;
 mod mon_c03;
+mod mon_c14;
 mod mon_c15;
 mod mon_c17;
 mod mon_c18;
@@ -56,6 +58,7 @@ fn main() {
                 "curve" => fam_curve::gen(&mut rng, n, &mut out),
                 "integr" => fam_integr::gen(&mut rng, n, &mut out),
                 "tokenfee" => fam_tokenfee::gen(&mut rng, n, &mut out),
+                "bankstate" => fam_gate::gen(&mut rng, n, &mut out),
                 "panic" => fam_panic::gen(&mut rng, n, &mut out),
                 _ => {
                     eprintln!("unknown family {}", fam);
@@ -86,6 +89,7 @@ fn main() {
                 "IX" => scen::run(&mut rng, n, &mut rep),
                 "C02" => mon_c02::run(&mut rng, n, &mut rep),
                 "C03" => mon_c03::run(&mut rng, n, &mut rep),
+                "C14" => mon_c14::run(&mut rng, n, &mut rep),
                 "C15" => mon_c15::run(&mut rng, n, &mut rep),
                 "C17" => mon_c17::run(&mut rng, n, &mut rep),
                 "C18" => mon_c18::run(&mut rng, n, &mut rep),
